@@ -37,6 +37,11 @@ and opened with DebFile(fileobj=BytesIO).
     package that was opened, read and closed ("rewrite").  Same observations, same oracle; signatures get the prefix
     "via-<mode>/".
 
+  * routes: seven contents (the three above + four awkward ones) in all 25 compression pairs x 3 (thorough: 6) member orders are asked along
+    every route of ROUTES: the part objects' own methods and container emulation, encoding= / errors= arguments, every
+    question repeated, another order of questions, two DebFile objects alive on one file object / one file name, other
+    constructor argument forms, the TarFile of part.tgz().  Signatures get the prefix "via-<route>/".
+
 Oracle: what was packed (the generator's own lists), never anything read back through the code under test.
 """
 import io
@@ -110,7 +115,13 @@ def bounds(tier):
                           "empty_contents": "every empty-content package x 25 compression pairs (member order rotating): filename=%s"
                                             % ("" if tier == "quick" else " and a real file object"),
                           "defective_sets": "every defective member set in its canonical member order: filename=%s"
-                                            % ("" if tier == "quick" else " and a real file object"),
+                                            % ("; every fourth set also through a real file object, every fourth through a positional "
+                                               "file name" if tier == "quick" else ", a real file object; every second a positional file name"),
+                          "routes": {"routes": list(ROUTES),
+                                     "packages": "7 contents (the three above; scripts empty/non-empty alternating; empty data files "
+                                                 "around non-empty ones; control values with form feed / vertical tab / U+0085 / "
+                                                 "U+2028; dot names next to ordinary names) x 25 compression pairs x %d member "
+                                                 "orders, every route on every package" % len(ROUTE_ORDERS[tier])},
                           "large_histories": "%s of every large content x its compression pairs x 1 member order "
                                              "(alternating with the pair), chunk size %d: filename=" % (
                                                  "two histories (rotating with the pair: every history with every compression "
@@ -151,7 +162,22 @@ def assumptions():
             "(explicit, or by leaving the with-block) must not raise; nothing is demanded of a DebFile after its close().  "
             "'reopen' = a first DebFile on the file is queried (debcontrol, one has_file question to the data part) and closed, then a second one is "
             "opened on the same file and observed; 'rewrite' = the scratch file first holds another well-formed package that is "
-            "opened, queried and closed, then the file is overwritten with the package under test and opened by name"]
+            "opened, queried and closed, then the file is overwritten with the package under test and opened by name",
+            "routes: the part objects' own methods (deb.control.debcontrol / scripts / md5sums - DebFile's are documented as "
+            "proxies), part[name] and `name in part` (container emulation, for both parts), keyword and positional encoding= / "
+            "errors= of get_content / get_file / md5sums, every question asked twice and once more in reverse order, another "
+            "order of questions (md5sums first, control last), two DebFile objects alive on one (rewound) file object or on "
+            "one file name taking turns, the constructor's other argument forms (mode 'r' given, positional fileobj, a "
+            "BufferedReader), and the TarFile handed out by part.tgz() ('Return a TarFile object corresponding to this part') "
+            "must all return what was packed",
+            "routes: with encoding= the reference is what a text-mode file (io.TextIOWrapper, default newline handling) over "
+            "the packed bytes returns - 'If encoding is given, then the file object will return Unicode data'; md5sums keys "
+            "with encoding= are the packed names' UTF-8 bytes decoded with that encoding and error handler",
+            "routes left out: iteration over a part (yields the tarball's own member names incl. directories: not a "
+            "membership or content query of the statement), DebFile.version, DebFile.changelog() (a parsed view of one data "
+            "file, judged by the changelog properties), pathlib.Path file names (the parameter is documented as str), a file "
+            "object that is not positioned at the start of the archive (ArFile reads from the current position), member "
+            "names given as bytes"]
 
 
 # ------------------------------------------------------------------------------------------------ content
@@ -432,6 +458,9 @@ def units(tier, seed):
         out.append({"kind": "valid", "content": c})
     for c in kind_contents(seed):
         out.append({"kind": "valid-kinds", "content": c})
+    for c in route_contents(seed):
+        for cc in db.COMPRESSIONS:
+            out.append({"kind": "valid-routes", "content": c, "cc": cc})
     dsets = defective_sets()
     chunk = 128
     for i in range(0, len(dsets), chunk):
@@ -451,6 +480,8 @@ def unit_cost(u, tier):
     c = u["content"]
     if u["kind"] == "valid-kinds":
         return 30 + 3 * len(c["data"]) + len(c["scripts"])
+    if u["kind"] == "valid-routes":
+        return 20 + 2 * len(c["data"]) + len(c["scripts"])
     return 10 + 3 * len(c["data"]) + len(c["scripts"])
 
 
@@ -808,6 +839,214 @@ def _compress_cached(tar, kind):
     return _ccache[key]
 
 
+
+# ------------------------------------------------------------------------------------------------ routes
+#
+# "the other way in": the same package asked the other public ways.  Every route opens its own DebFile object(s) and compares
+# with what was packed; signatures carry "via-<route>/".
+
+ROUTE_ORDERS = {"quick": [(0, 1, 2), (2, 1, 0), (1, 0, 2)], "thorough": ORDERS}
+ROUTES = ["part-methods", "encoding", "repeat", "other-order", "two-on-one-fileobj", "two-by-filename", "open-arguments", "tgz"]
+
+
+def text_view(data, encoding, errors=None):
+    """what a text-mode file over these bytes returns (the documented meaning of get_file / get_content with encoding=)"""
+    return io.TextIOWrapper(io.BytesIO(data), encoding=encoding, errors=errors).read()
+
+
+def _expected(content):
+    fields = [(k, v) for k, v in content["control"]]
+    return {"fields": fields, "ctrl_text": db.control_text(fields), "scripts": dict((n, c) for n, c in content["scripts"]),
+            "md5_b": dict((n.encode("utf-8"), m) for m, n in content["md5"]), "md5_s": dict((n, m) for m, n in content["md5"]),
+            "data": [(n, c) for n, c in content["data"]]}
+
+
+def _basic_queries(exp):
+    """-> [(name, expected, function of a DebFile)]: the ordinary observations, one per call"""
+    qs = [("debcontrol", exp["fields"], lambda d: list(d.debcontrol().items())),
+          ("scripts", exp["scripts"], lambda d: d.scripts()),
+          ("md5sums/bytes", exp["md5_b"], lambda d: d.md5sums()),
+          ("md5sums/str", exp["md5_s"], lambda d: d.md5sums(encoding="utf-8")),
+          ("control/get_content", exp["ctrl_text"], lambda d: d.control.get_content("control"))]
+    for i, (n, c) in enumerate(exp["data"]):
+        sp, prefix = SPELLINGS[i % 3]
+        qs.append(("data/get_content/" + sp, c, lambda d, q=prefix + n: d.data.get_content(q)))
+        qs.append(("data/has_file/" + sp, True, lambda d, q=prefix + n: d.data.has_file(q)))
+    return qs
+
+
+def check_route(raw, content, route):
+    """-> list of (sig, expected, observed) for one package asked along one route"""
+    from debian.debfile import DebFile
+    exp = _expected(content)
+    bad = []
+    pre = "via-%s/" % route
+
+    def ask(sig, want, fn, *args):
+        try:
+            got = fn(*args)
+        except Exception as e:
+            bad.append((pre + sig + "/raises", "no exception", _exc(e)))
+            return
+        if got != want or type(got) is not type(want):
+            bad.append((pre + sig, want, got))
+
+    def opened(fn):
+        try:
+            return fn()
+        except Exception as e:
+            bad.append((pre + "open/raises/" + type(e).__name__, "package accepted", _exc(e)))
+            return None
+
+    path = None
+    keep = []
+    try:
+        if route == "part-methods":
+            d = opened(lambda: DebFile(fileobj=io.BytesIO(raw)))
+            if d is None:
+                return bad
+            ask("control.debcontrol", exp["fields"], lambda: list(d.control.debcontrol().items()))
+            ask("control.scripts", exp["scripts"], lambda: d.control.scripts())
+            ask("control.md5sums/bytes", exp["md5_b"], lambda: d.control.md5sums())
+            ask("control.md5sums/str", exp["md5_s"], lambda: d.control.md5sums(encoding="utf-8"))
+            for sp, prefix in SPELLINGS:
+                ask("control[...]/" + sp, exp["ctrl_text"], lambda: d.control[prefix + "control"])
+                ask("control/contains/" + sp, True, lambda: (prefix + "control") in d.control)
+                ask("control/contains-absent/" + sp, False, lambda: (prefix + "no-such-member") in d.control)
+                for n, c in exp["scripts"].items():
+                    ask("control[script]/" + sp, c, lambda: d.control[prefix + n])
+                    ask("control/has_file-script/" + sp, True, lambda: d.control.has_file(prefix + n))
+                for n in db.SCRIPTS:
+                    if n not in exp["scripts"]:
+                        ask("control/has_file-absent-script/" + sp, False, lambda: d.control.has_file(prefix + n))
+                for n, c in exp["data"]:
+                    ask("data[...]/" + sp, c, lambda: d.data[prefix + n])
+            ask("debcontrol-afterwards", exp["fields"], lambda: list(d.debcontrol().items()))
+        elif route == "encoding":
+            d = opened(lambda: DebFile(fileobj=io.BytesIO(raw)))
+            if d is None:
+                return bad
+            for n, c in exp["data"]:
+                for sp, prefix in SPELLINGS:
+                    q = prefix + n
+                    ask("data/get_content(encoding=utf-8,errors=replace)/" + sp, text_view(c, "utf-8", "replace"),
+                        lambda: d.data.get_content(q, encoding="utf-8", errors="replace"))
+                    ask("data/get_content(latin-1 positional)/" + sp, text_view(c, "latin-1"), lambda: d.data.get_content(q, "latin-1"))
+                    ask("data/get_file(encoding=latin-1)/" + sp, text_view(c, "latin-1"),
+                        lambda: _read_all(d.data.get_file(q, encoding="latin-1")))
+                    ask("data/get_file(utf-8 positional, replace)/" + sp, text_view(c, "utf-8", "replace"),
+                        lambda: _read_all(d.data.get_file(q, "utf-8", "replace")))
+                    ask("data/get_content(no encoding)/" + sp, c, lambda: d.data.get_content(q, None))
+            ask("control/get_content(encoding=utf-8)", text_view(exp["ctrl_text"], "utf-8"),
+                lambda: d.control.get_content("control", encoding="utf-8"))
+            for n, c in exp["scripts"].items():
+                ask("control/get_content(script, latin-1)", text_view(c, "latin-1"), lambda: d.control.get_content(n, encoding="latin-1"))
+            ask("md5sums(utf-8 positional)", exp["md5_s"], lambda: d.md5sums("utf-8"))
+            ask("md5sums(encoding=latin-1)", dict((n.encode("utf-8").decode("latin-1"), m) for m, n in content["md5"]),
+                lambda: d.md5sums(encoding="latin-1"))
+            ask("md5sums(encoding=ascii, errors=replace)",
+                dict((n.encode("utf-8").decode("ascii", "replace"), m) for m, n in content["md5"]),
+                lambda: d.md5sums(encoding="ascii", errors="replace"))
+            ask("md5sums(None)", exp["md5_b"], lambda: d.md5sums(None))
+            ask("control.md5sums(utf-8, strict)", exp["md5_s"], lambda: d.control.md5sums("utf-8", "strict"))
+            ask("debcontrol-afterwards", exp["fields"], lambda: list(d.debcontrol().items()))
+        elif route in ("repeat", "other-order"):
+            d = opened(lambda: DebFile(fileobj=io.BytesIO(raw)))
+            if d is None:
+                return bad
+            qs = _basic_queries(exp)
+            if route == "repeat":
+                for name, want, fn in qs:                 # every question twice in a row ...
+                    ask(name + "/first", want, fn, d)
+                    ask(name + "/second", want, fn, d)
+                for name, want, fn in reversed(qs):       # ... and all of them once more, last first
+                    ask(name + "/third", want, fn, d)
+            else:
+                order = [qs[2], qs[3]] + list(reversed(qs[5:])) + [qs[1], qs[4], qs[0], qs[2]]
+                for name, want, fn in order:
+                    ask(name, want, fn, d)
+        elif route in ("two-on-one-fileobj", "two-by-filename"):
+            if route == "two-on-one-fileobj":
+                f = io.BytesIO(raw)
+                d1 = opened(lambda: DebFile(fileobj=f))
+                f.seek(0)
+                d2 = opened(lambda: DebFile(fileobj=f))
+            else:
+                path = write_scratch(raw)
+                d1 = opened(lambda: DebFile(filename=path))
+                d2 = opened(lambda: DebFile(filename=path))
+            if d1 is None or d2 is None:
+                return bad
+            qs = _basic_queries(exp)
+            for i, (name, want, fn) in enumerate(qs):     # the two readers take turns
+                ask(name + "/reader-%d" % (1 + i % 2), want, fn, (d1, d2)[i % 2])
+            for i, (name, want, fn) in enumerate(qs):
+                ask(name + "/reader-%d" % (2 - i % 2), want, fn, (d2, d1)[i % 2])
+            if route == "two-by-filename":
+                ask("close-first-reader", None, d1.close)
+                ask("debcontrol/second-reader-after-close-of-first", exp["fields"], lambda: list(d2.debcontrol().items()))
+                for n, c in exp["data"][:1]:
+                    ask("data/get_content/second-reader-after-close-of-first", c, lambda: d2.data.get_content(n))
+                ask("close-second-reader", None, d2.close)
+        elif route == "open-arguments":
+            path = write_scratch(raw)
+            ways = [("DebFile(path, 'r')", lambda: DebFile(path, "r")),
+                    ("DebFile(path, 'r', None)", lambda: DebFile(path, "r", None)),
+                    ("DebFile(filename=path, mode='r')", lambda: DebFile(filename=path, mode="r")),
+                    ("DebFile(None, 'r', BytesIO)", lambda: DebFile(None, "r", io.BytesIO(raw))),
+                    ("DebFile(fileobj=BufferedReader(BytesIO))", lambda: DebFile(fileobj=io.BufferedReader(io.BytesIO(raw)))),
+                    ("DebFile(mode='r', fileobj=BytesIO)", lambda: DebFile(mode="r", fileobj=io.BytesIO(raw)))]
+            qs = _basic_queries(exp)
+            for wname, w in ways:
+                d = opened(w)
+                if d is None:
+                    bad[-1] = (bad[-1][0] + "/" + wname,) + tuple(bad[-1][1:])
+                    continue
+                for name, want, fn in qs:
+                    ask(wname + "/" + name, want, fn, d)
+                if "path" in wname:
+                    ask(wname + "/close", None, d.close)
+        elif route == "tgz":
+            d = opened(lambda: DebFile(fileobj=io.BytesIO(raw)))
+            if d is None:
+                return bad
+            for n, c in exp["data"]:
+                ask("data.tgz().getnames", True, lambda: ("./" + n) in d.data.tgz().getnames())
+                ask("data.tgz().extractfile", c, lambda: _read_all(d.data.tgz().extractfile("./" + n)))
+            ask("control.tgz().extractfile", exp["ctrl_text"], lambda: _read_all(d.control.tgz().extractfile("./control")))
+            for n, c in exp["data"]:
+                ask("data.tgz().extractfile/after-control", c, lambda: _read_all(d.data.tgz().extractfile("./" + n)))
+            for name, want, fn in _basic_queries(exp):
+                ask(name + "/after-tgz", want, fn, d)
+        else:
+            raise ValueError(route)
+    finally:
+        for f in keep:
+            f.close()
+        if path is not None:
+            _unlink(path)
+    seen = set()
+    uniq = []
+    for b in bad:
+        if b[0] not in seen:
+            seen.add(b[0])
+            uniq.append(b)
+    return uniq
+
+
+def route_contents(seed):
+    """the contents asked along every route: the three of the ways-of-opening part, and four of the awkward ones (empty
+    members, empty field values and line-separator characters in values, dot names)"""
+    out = list(kind_contents(seed))
+    em = dict(empties(seed))
+    dn = dict(dotnames(seed))
+    for c in (em["scripts empty/non-empty alternating, first empty"], em["empty data files around non-empty ones"],
+              em["control values with form feed, vertical tab, U+0085, U+2028 followed by a blank"],
+              dn["dot names next to ordinary names"]):
+        out.append(c)
+    return out
+
+
 # ------------------------------------------------------------------------------------------------ large, interleaved
 #
 # Packages whose parts are consumed in MANY physical reads (the decompressors fetch 8 KiB at a time, gzip 128 KiB), queried
@@ -1089,7 +1328,7 @@ def run_unit(u, tier, seed):
         return run_large(u, tier, seed)
     part = core.Part()
     if u["kind"] == "defective":
-        for names in u["sets"]:
+        for si, names in enumerate(u["sets"]):
             part.states += 1
             for members in member_orders(names, tier):
                 part.states += 1
@@ -1105,7 +1344,8 @@ def run_unit(u, tier, seed):
                     part.violation(sig, case, exp, obs)
                 if len(members) in (0, 3, 11):
                     part.sample(case)
-            for mode in (["filename"] if tier == "quick" else ["filename", "realfile"]):
+            more = {0: ["realfile"], 2: ["positional"]}.get(si % 4, []) if tier == "quick" else ["realfile"] + (["positional"] if si % 2 else [])
+            for mode in ["filename"] + more:
                 part.states += 1
                 part.transitions += 1
                 bad, kind, outcome = check_defective(list(names), mode)
@@ -1139,6 +1379,28 @@ def run_unit(u, tier, seed):
         part.extra["opened via %s (%s)" % (mode, what)] += 1
         return case
 
+    if u["kind"] == "valid-routes":
+        for cc in [u["cc"]]:
+            for dc in db.COMPRESSIONS:
+                for order in ROUTE_ORDERS[tier]:
+                    part.states += 1
+                    part.transitions += 1
+                    raw = pk.raw(cc, dc, order)
+                    for route in ROUTES:
+                        bad = check_route(raw, content, route)
+                        part.states += 1
+                        part.transitions += 1
+                        part.traces += 1
+                        part.evaluations += 1
+                        part.nontrivial += 1
+                        case = {"kind": "valid", "content": content, "cc": cc, "dc": dc, "order": list(order), "route": route}
+                        for sig, exp, obs in bad:
+                            part.violation(sig, case, exp, obs)
+                        part.outcomes["route %s data=%s -> %s" % (route, dc, "violating" if bad else "as packed")] += 1
+                        part.extra["asked via route %s" % route] += 1
+        part.max_depth = 5
+        part.sample(case)
+        return part
     if u["kind"] == "valid-kinds":
         i = 0
         for cc in db.COMPRESSIONS:
@@ -1211,6 +1473,8 @@ def replay(case):
     content = case["content"]
     pk = Packer(content)
     raw = pk.raw(case["cc"], case["dc"], tuple(case["order"]))
+    if case.get("route"):
+        return check_route(raw, content, case["route"])
     if case.get("interleave"):
         return [("isolation/" + b[0],) + tuple(b[1:]) for b in check_valid(raw, content, content["universe"], True)]
     return check_valid(raw, content, content["universe"], mode=mode)
